@@ -337,13 +337,13 @@ def macro_arg(rnd, d=0, in_bracket=False) -> str:
         else:
             o, c = rnd.choice(MACRO_OPEN)
             inner = [macro_arg(rnd, d + 1, True) for _ in range(rnd.randint(0, 3))]
-            sep = rnd.choice([", ", ",", " , ", ",\n  ", ",  # c\n "])
+            sep = rnd.choice([", ", ",", " , ", ",\n  ", ",  # c\n ", ", \\\n  "])
             parts.append(o + sep.join(inner) + rnd.choice(["", "", ",", " "]) + c)
         if in_bracket and rnd.random() < 0.2:
             parts.append(",")
     out = ""
     for p in parts:
-        sp = rnd.choice([" ", " ", "", "  ", "\t"])
+        sp = rnd.choice([" ", " ", "", "  ", "\t", " \\\n "])  # incl. a backslash continuation
         if out and sp == "" and (out[-1].isalnum() or out[-1] in "_'\"") and (p[0].isalnum() or p[0] in "_'\""):
             sp = " "
         # never glue characters into a different token that opens a bracket or a string
